@@ -26,6 +26,8 @@ analysis procedures.
 .. moduleauthor:: Tom Dimiduk <tdimiduk@physics.harvard.edu>
 """
 
+import io
+
 import numpy as np
 import yaml
 from yaml.reader import ReaderError
@@ -41,7 +43,12 @@ def save(outf, obj):
         outf = open(outf, 'wb')
         close = True
 
-    outf.write(yaml.dump(obj, default_flow_style=True).encode())
+    text = yaml.dump(obj, default_flow_style=True)
+    if isinstance(outf, io.TextIOBase):
+        # a file opened in text mode
+        outf.write(text)
+    else:
+        outf.write(text.encode())
     if close:
         outf.close()
 
